@@ -119,6 +119,21 @@ CHECKS = {
         note=('XML input. One recorded finding (a failed exponentialrate label replaces the invariant of the same location) is '
               'excluded by exact descriptor and counted; one cascading warning was repaired in /repo (fix: commit 8ba02a2).'),
     ),
+    'C14': dict(
+        engine='oracle-server expression builder + TypeChecker::checkExpression; cell enumeration + Hypothesis (harness/py/prop_C14.py)',
+        technique='metamorphic testing (operand swap): acceptance and result-type kind of a op b vs b op a, c ? a : b vs !c ? b : a (bare and inside lvalue / reference-argument contexts), f(A&) with a B variable vs f(B&) with an A variable; complete enumeration of type-class pairs x operators, random representatives',
+        category='exploration',
+        text=('Operands are taken from 20 type classes (int, bounded int, bool, double, clock, clock difference, clock '
+              'constraint, two scalar sets, three struct types, arrays, channel kinds, strings; variables, constants, literals, '
+              'compound expressions), each checked to be well typed alone. For all ordered class pairs and the eleven '
+              'commutative operators, for inline-if with negated condition (also inside contexts that need an lvalue or a '
+              'reference argument, with branches of different constness) and for reference parameters of 20 parameter types the '
+              'two operand orders must agree on acceptance and on the kind of the result type.'),
+        design_ref='DESIGN.md 4/C14',
+        note=('Accepted = checkExpression returns true and no error is recorded. Channel parameters of a different kind than '
+              'the argument (documented capability order) and const arguments to const reference parameters (passed by value) '
+              'are outside the symmetric domain. One recorded finding (const int& carries no range); three defects repaired in /repo.'),
+    ),
     'C18': dict(
         engine='rapidcheck + exhaustive loops (harness/cpp/c18.cpp)',
         technique='exhaustive enumeration over int8_t + rapidcheck property-based testing over int32_t/double against set semantics in wide arithmetic',
